@@ -1,9 +1,12 @@
 """C14 -- callbacks and extern "Python" pass values exactly and contain errors (partial).
 
 Theorems (lean/CffiVerif/Props/C14.lean): slot_roundtrip, packing_in_bounds,
-result_is_conversion, small_int_result_widened, extern_python_result_plain,
-error_value_returned_partial (+ error_value_lost_witness), rawerr_is_conversion,
-rawerr_default_zero, void_requires_none, nothing_propagates.
+result_area_large_enough (+ result_fits_without_arguments, slot_stride_is_source),
+slot_unsafe_primitives, complex_argument_corrupted_witness,
+complex_last_argument_out_of_bounds_witness, result_is_conversion,
+small_int_result_widened, extern_python_result_plain, error_value_returned
+(+ error_value_kept_example), rawerr_is_conversion, rawerr_default_zero,
+void_requires_none, nothing_propagates.
 
 Tie to the code:
   A. random function-pointer signatures; for each a compiled C driver (in an API-mode
@@ -23,55 +26,72 @@ Tie to the code:
 """
 import ctypes
 import importlib
+import json
 import os
 import re
+import resource
 import struct
 import sys
 
 import common
 from common import InfraError
 
+sys.path.insert(0, os.path.join(common.VERIF, "translate"))
+import externpy_size  # noqa: E402   (size rule of `char a[size_of_a]` from Recompiler._extern_python_decl)
+import primitives as _prim_tr  # noqa: E402   (C06's extractor; Generated/Platform.lean: sizeof of every primitive, by gcc)
+
 MANIFEST = {
     "text": "Kernel-checked theorems over a model of the extern \"Python\" argument slots (every argument of at most 8 bytes "
             "stored at p+8i, structs/long double by reference) and their reader in general_invoke_callback "
-            "(slot_roundtrip for any number of arguments, stores stay inside the local array), of "
+            "(slot_roundtrip for any number of arguments, stores stay inside the local array), of the size of that array as "
+            "the generator computes it (result_area_large_enough: every result the backend writes fits, for every signature; "
+            "the size rule is regenerated from recompiler.py and the primitive sizes from gcc on every run), of "
             "convert_from_object_fficallback (the caller receives exactly the conversion; small integers of libffi "
             "callbacks fill the whole ffi_arg, sign- or zero-extended; extern \"Python\" results are written plain; void "
-            "requires None) and of the error protocol (error= bytes pre-encoded at creation and copied first, onerror "
-            "called, its non-None convertible result converted, no exception left pending).  A compiled C driver calls "
-            "ffi.callback closures and @ffi.def_extern functions of random signatures with generated arguments under all "
-            "body / error= / onerror= combinations; received arguments, returned bytes and unraisable reports are compared "
-            "with an independent oracle and with the model; convert_from_object_fficallback is also driven directly.",
+            "requires None) and of the error protocol (error_value_returned at full strength: error= bytes pre-encoded at "
+            "creation and copied first, onerror called, its non-None result converted, the error= bytes restored when that "
+            "conversion fails, no exception left pending).  A compiled C driver (built with -fstack-protector-all, risky "
+            "cases in forked children) calls ffi.callback closures and @ffi.def_extern functions of random signatures, "
+            "including float/double _Complex, with generated arguments under all body / error= / onerror= combinations; "
+            "received arguments, returned bytes, the emitted array sizes and unraisable reports are compared with an "
+            "independent oracle and with the model; convert_from_object_fficallback is also driven directly.",
     "note": "PARTIAL: libffi's closure dispatch and gcc's calling convention are external (covered by running only). "
-            "Conversions of float/double/pointer/struct results are abstracted (`image` objects), integer/_Bool/char "
-            "conversions come from the Call model. Finding class C14/onerror-unconvertible-result (onerror returning an "
-            "unconvertible value loses the declared error value for unsigned/_Bool/char results of libffi callbacks) is "
-            "excluded by hypothesis from error_value_returned_partial and witnessed by error_value_lost_witness. "
+            "Conversions of float/double/complex/pointer/struct results are abstracted (`image` objects), integer/_Bool/char "
+            "conversions come from the Call model. Finding class C14/extern-python-double-complex-argument: a double "
+            "_Complex argument of an extern \"Python\" function is stored in an 8-byte slot (corrupted by the next "
+            "argument's store, or stored past the end of the array when it comes last); slot_roundtrip and "
+            "packing_in_bounds carry the hypothesis `slot values have at most 8 bytes`, slot_unsafe_primitives shows that "
+            "double _Complex is the only primitive violating it, and two witnesses are proved by evaluation. "
             "Callbacks from foreign threads, subinterpreters and the not-yet-defined extern \"Python\" case are C36/C28 territory.",
     "technique": "Lean 4 proof (byte-memory model, induction over the argument list; case analysis of the result encoder and "
-                 "error protocol) + correspondence through a compiled C driver and a wrapper around the backend's own "
-                 "convert_from_object_fficallback",
+                 "error protocol; size rule and platform table regenerated from the source) + correspondence through a "
+                 "compiled C driver and a wrapper around the backend's own convert_from_object_fficallback",
 }
 
 RULE = ("signatures: 0-7 parameters from {integers of every size/sign, _Bool, char, float, double, long double, char *, 4 "
-        "structs by value}, result from {void, integers, _Bool, char, float, double, char *, structs}; each signature x "
-        "{ffi.callback, extern \"Python\"} x scenarios: body {returns a valid value (boundary or random), raises, returns an "
-        "unconvertible value} x error= {absent, valid value, (rarely) invalid value} x onerror= {absent, returns None, "
-        "returns a valid value, raises}; argument values generated in C from a seed (boundaries and random bits); "
-        "non-trivial = signature with >= 1 parameter or a non-void result; distinct = distinct (signature, kind, scenario, seed); "
-        "part B: 8 types x objects {in-range, boundary, out-of-range ints, int-likes, float, None, str, bytes} x encode flag")
+        "structs by value; float/double _Complex for extern \"Python\"}, result from {void, integers, _Bool, char, float, "
+        "double, char *, structs; float/double _Complex with 0, 1, 2+ parameters}; the first four signatures always return "
+        "unsigned char / unsigned short / _Bool / char; each signature x {ffi.callback, extern \"Python\"} x scenarios: body "
+        "{returns a valid value (boundary or random), raises, returns an unconvertible value} x error= {absent, valid value, "
+        "(rarely) invalid value} x onerror= {absent, returns None, returns a valid value, raises, returns an unconvertible "
+        "value}; argument values generated in C from a seed (boundaries and random bits); per signature the emitted "
+        "`char a[N]` is checked against every store; non-trivial = signature with >= 1 parameter or a non-void result; "
+        "distinct = distinct (signature, kind, scenario, seed); "
+        "part B: 13 types x objects {in-range, boundary, out-of-range ints, int-likes, float, None, str, bytes} x encode flag")
 ASSUMPTIONS = ["x86-64 SysV, little endian; sizeof(ffi_arg) = 8",
                "struct padding is unspecified: struct images are the concatenation of the fields"]
 TRUSTED_EXTRA = ["the generated C driver of corr_C14 and csrc/fficallback_wrap.c (includes /repo/src/c/_cffi_backend.c unmodified)"]
 
 
-def _onerror_unconvertible(case):
-    sc = case.get("scenario") or {}
-    return sc.get("onerr", {}).get("m") == "retbad" and case.get("kind") == "callback" and case.get("small_unsigned")
+def _double_complex_argument(case):
+    """extern "Python" function with a `double _Complex` parameter: the 16-byte value is stored in an 8-byte
+    slot -- corrupted by the next argument's store, or (last position) stored past the end of `char a[]`."""
+    return bool(case.get("complex_arg_followed") or case.get("complex_arg_oob"))
 
 
-CLASSES = {"C14/onerror-unconvertible-result": _onerror_unconvertible}
-EXPLORE_FINDING = [False]
+CLASSES = {"C14/extern-python-double-complex-argument": _double_complex_argument}
+EXPLORE_COMPLEX_ARG = [False]
+COMPLEX = {"float _Complex": ("float", 8, "_cffi_float_complex_t"), "double _Complex": ("double", 16, "_cffi_double_complex_t")}
 
 INTS = {
     "signed char": ("sint", 1), "unsigned char": ("uint", 1), "short": ("sint", 2), "unsigned short": ("uint", 2),
@@ -87,6 +107,7 @@ STRUCTS = {
 STRUCT_DECL = "".join("%s { %s };\n" % (n, " ".join("%s %s;" % (t, f) for f, t in fl)) for n, fl in STRUCTS.items())
 ARG_TYPES = sorted(INTS) + ["_Bool", "char", "float", "double", "long double", "char *"] + sorted(STRUCTS)
 RES_TYPES = ["void"] + sorted(INTS) + ["_Bool", "char", "float", "double", "char *"] + sorted(STRUCTS)
+# complex types exist for extern "Python" only (libffi callbacks refuse them)
 
 
 def int_range(t):
@@ -99,6 +120,8 @@ def int_range(t):
 def scalar_size(t):
     if t in INTS:
         return INTS[t][1]
+    if t in COMPLEX:
+        return COMPLEX[t][1]
     return {"_Bool": 1, "char": 1, "float": 4, "double": 8, "long double": 8, "char *": 8}[t]   # long double logged as double
 
 
@@ -138,7 +161,30 @@ static unsigned long long nxt(unsigned long long *s)
 
 def gen_sig(rng, idx):
     n = rng.randint(0, 7)
-    return {"idx": idx, "res": rng.choice(RES_TYPES), "args": [rng.choice(ARG_TYPES) for _ in range(n)]}
+    sig = {"idx": idx, "res": rng.choice(RES_TYPES), "args": [rng.choice(ARG_TYPES) for _ in range(n)]}
+    if idx < 4:
+        sig["res"] = ["unsigned char", "unsigned short", "_Bool", "char"][idx]     # always present
+    elif rng.random() < 0.3:
+        # extern "Python" only: complex results with 0, 1, 2+ arguments, complex arguments
+        n = rng.choice([0, 0, 1, 1, 2, 3, rng.randint(0, 7)])
+        sig["args"] = [rng.choice(ARG_TYPES + ["float _Complex"] * 4) for _ in range(n)]
+        sig["res"] = rng.choice(["float _Complex", "double _Complex", "double _Complex", rng.choice(RES_TYPES)])
+        if n and rng.random() < 0.5:
+            # a double _Complex argument: in the last position, or (known finding) followed by others
+            pos = rng.randrange(n) if EXPLORE_COMPLEX_ARG[0] else n - 1
+            sig["args"][pos] = "double _Complex"
+            if not EXPLORE_COMPLEX_ARG[0]:
+                sig["args"] = [a if a != "double _Complex" or j == n - 1 else "float _Complex"
+                               for j, a in enumerate(sig["args"])]
+    return sig
+
+
+def has_complex(sig):
+    return sig["res"] in COMPLEX or any(a in COMPLEX for a in sig["args"])
+
+
+def complex_followed(sig):
+    return any(a == "double _Complex" for a in sig["args"][:-1])
 
 
 def c_fill(t, var):
@@ -161,6 +207,10 @@ def c_fill(t, var):
                 % (var, var))
     if t == "char *":
         return "{ %s = c14_store + nxt(&seed) %% 64; PUT(%s); }" % (var, var)
+    if t in COMPLEX:
+        b = COMPLEX[t][0]
+        return ("{ %s re_ = (%s)((long)(nxt(&seed) %% 200001) - 100000) / 8, im_ = (%s)((long)(nxt(&seed) %% 200001) - 100000) / 16; "
+                "__real__ %s = re_; __imag__ %s = im_; PUT(%s); }" % (b, b, b, var, var, var))
     raise KeyError(t)
 
 
@@ -233,6 +283,8 @@ def _quiet(fn):
 
 
 _counter = [0]
+_CPATH = {}
+_EMITTED = {}        # (id(lib), sig idx) -> N of `char a[N]`
 
 
 def build_module(ctx, sigs):
@@ -247,8 +299,10 @@ def build_module(ctx, sigs):
     ffi.set_source(name, src)
     cpath = os.path.join(ctx.scratch, name + ".c")
     _quiet(lambda: ffi.emit_c_code(cpath))
-    common.compile_ext(cpath, ctx.scratch, name)
+    # an overflow of the generated function's `char a[]` must be a crash, not silent corruption
+    common.compile_ext(cpath, ctx.scratch, name, extra=["-fstack-protector-all"])
     m = importlib.import_module(name)
+    _CPATH[id(m.lib)] = cpath
     return m.ffi, m.lib
 
 
@@ -273,6 +327,8 @@ def pack_scalar(t, v):
         return struct.pack("<f", v)
     if t in ("double", "long double"):
         return struct.pack("<d", v)
+    if t in COMPLEX:
+        return struct.pack("<ff" if t == "float _Complex" else "<dd", v.real, v.imag)
     raise KeyError(t)
 
 
@@ -288,6 +344,8 @@ def received_image(ffi, t, v):
         return pack_scalar(t, v) if type(v) is float else None
     if t == "long double":
         return struct.pack("<d", float(v))
+    if t in COMPLEX:
+        return pack_scalar(t, v) if type(v) is complex else None
     if t == "char *":
         return int(ffi.cast("uintptr_t", v)).to_bytes(8, "little")
     if t in STRUCTS:
@@ -319,6 +377,10 @@ def valid_value(rng, t):
     if t == "char *":
         k = rng.randrange(64)
         return {"py": ["ptr", k], "tok": None, "img": None, "ptr": k}
+    if t in COMPLEX:
+        re, im = rng.randint(-8000, 8000) / 8.0, rng.randint(-8000, 8000) / 16.0
+        img = pack_scalar(t, complex(re, im)).hex()
+        return {"py": ["complex", re, im], "tok": "image:" + img, "img": img}
     if t in STRUCTS:
         vals = []
         for f, ft in STRUCTS[t]:
@@ -377,6 +439,8 @@ def build_value(ffi, lib, r):
         return r[1]
     if k == "none":
         return None
+    if k == "complex":
+        return complex(r[1], r[2])
     if k == "ptr":
         return lib.c14_base() + r[1]
     if k == "struct":
@@ -400,6 +464,11 @@ def really_bad(rng, t):
             return v
 
 
+def small_unsigned_result(res):
+    """Result types whose libffi encoding zeroes the ffi_arg before converting (the regression class of commit 36aca36)."""
+    return (res in INTS and INTS[res] in (("uint", 1), ("uint", 2), ("uint", 4))) or res in ("_Bool", "char")
+
+
 def gen_scenario(rng, sig):
     res = sig["res"]
     r = rng.random()
@@ -421,10 +490,10 @@ def gen_scenario(rng, sig):
         onerr = {"m": "none"}
     elif r < 0.65:
         onerr = {"m": "raise"}
-    elif r < 0.9 or not EXPLORE_FINDING[0]:
+    elif r < (0.78 if small_unsigned_result(res) else 0.9):
         onerr = {"m": "ret", "v": valid_value(rng, res)} if res != "void" else {"m": "none"}
     else:
-        onerr = {"m": "retbad", "v": really_bad(rng, res)}
+        onerr = {"m": "retbad", "v": really_bad(rng, res)}     # onerror's own result cannot be converted
     return {"body": body, "error": error, "onerr": onerr, "seed": rng.randrange(1 << 63)}
 
 
@@ -520,6 +589,60 @@ def run_case(ctx, ffi, lib, sig, kind, sc):
     return obs
 
 
+def risky(sig, kind):
+    """Cases in which a wrong size of the generated function's stack area would smash the stack."""
+    return kind == "extern" and (has_complex(sig) or sig["res"] in STRUCTS or "long double" in sig["args"])
+
+
+def run_batch_forked(ctx, ffi, lib, items):
+    """run_case for every (sig, kind, scenario) of `items` in forked children: a crash (stack protector abort,
+    SIGSEGV) becomes the observation of the case that was running; a new child continues after it."""
+    results = []
+    while len(results) < len(items):
+        start = len(results)
+        r, w = os.pipe()
+        sys.stdout.flush()
+        sys.stderr.flush()
+        pid = os.fork()
+        if pid == 0:
+            code = 3
+            try:
+                resource.setrlimit(resource.RLIMIT_CORE, (0, 0))
+                os.close(r)
+                for sig, kind, sc in items[start:]:
+                    data = (json.dumps(run_case(ctx, ffi, lib, sig, kind, sc)) + "\n").encode()
+                    while data:
+                        n = os.write(w, data)
+                        data = data[n:]
+                code = 0
+            finally:
+                os._exit(code)
+        os.close(w)
+        chunks = []
+        while True:
+            b = os.read(r, 65536)
+            if not b:
+                break
+            chunks.append(b)
+        os.close(r)
+        _, status = os.waitpid(pid, 0)
+        text = b"".join(chunks).decode()
+        done = [json.loads(l) for l in text.split("\n")[:-1]]       # a partial last line is dropped
+        results += done
+        if os.WIFSIGNALED(status):
+            if len(results) < len(items):
+                results.append({"crashed": "signal %d" % os.WTERMSIG(status)})
+        elif os.WEXITSTATUS(status) != 0:
+            raise InfraError("forked case runner failed with exit status %d" % os.WEXITSTATUS(status))
+        elif len(done) != len(items) - start:
+            raise InfraError("forked case runner reported %d of %d cases" % (len(done), len(items) - start))
+    return results
+
+
+def run_case_forked(ctx, ffi, lib, sig, kind, sc):
+    return run_batch_forked(ctx, ffi, lib, [(sig, kind, sc)])[0]
+
+
 def expected_result(sig, sc, ffi, lib):
     """The image the C caller must receive according to the property (None = no statement)."""
     res = sig["res"]
@@ -534,11 +657,16 @@ def expected_result(sig, sc, ffi, lib):
     return declared
 
 
-def check_case(ctx, ffi, lib, sig, kind, sc, lines, plans):
+def check_case(ctx, ffi, lib, sig, kind, sc, lines, plans, obs=None):
     res, args = sig["res"], sig["args"]
-    small_unsigned = (res in INTS and INTS[res] in (("uint", 1), ("uint", 2), ("uint", 4))) or res in ("_Bool", "char")
-    case = {"sig": sig, "kind": kind, "scenario": sc, "small_unsigned": small_unsigned}
-    obs = run_case(ctx, ffi, lib, sig, kind, sc)
+    small_unsigned = small_unsigned_result(res)
+    case = {"sig": sig, "kind": kind, "scenario": sc, "small_unsigned": small_unsigned,
+            "complex_arg_followed": kind == "extern" and complex_followed(sig)}
+    if kind == "extern" and (id(lib), sig["idx"]) in _EMITTED:
+        oob = oob_args(ffi, args, _EMITTED[id(lib), sig["idx"]])
+        case["complex_arg_oob"] = bool(oob) and all(args[j] == "double _Complex" for j in oob)
+    if obs is None:
+        obs = run_case_forked(ctx, ffi, lib, sig, kind, sc) if risky(sig, kind) else run_case(ctx, ffi, lib, sig, kind, sc)
     nontrivial = bool(args) or res != "void"
     ctx.case(repr((sig["res"], sig["args"], kind, sc)) if nontrivial else None,
              sample={"sig": sig_decl(sig, "f"), "kind": kind, "body": sc["body"]["m"], "error": sc["error"]["m"],
@@ -551,6 +679,13 @@ def check_case(ctx, ffi, lib, sig, kind, sc, lines, plans):
     body_tok = "raise" if sc["body"]["m"] == "raise" else "ret=" + tok(sc["body"]["v"])
     one_tok = {"absent": "absent", "none": "none", "raise": "raise"}.get(sc["onerr"]["m"]) or "ret=" + tok(sc["onerr"]["v"])
     lines.append("call %s %d %s %s %s" % (rt_token(res), enc, err_tok, body_tok, one_tok))
+    ctx.count("forked" if risky(sig, kind) else "in-process")
+    if "crashed" in obs:
+        ctx.count("crashed")
+        ctx.fail(case, "the process died (%s) while C called the extern \"Python\" function: its argument/result area "
+                       "was overrun (compiled with -fstack-protector-all)" % obs["crashed"])
+        plans.append((case, None))
+        return
     # ---- creation
     if sc["error"]["m"] == "bad":
         want = sc["error"]["v"]["exc"]
@@ -597,6 +732,7 @@ def check_case(ctx, ffi, lib, sig, kind, sc, lines, plans):
             img = alog[pos:pos + n].hex()
             pos += n
             toks.append("r:%d:%s" % (100000 + 64 * j, img) if t in STRUCTS or t == "long double" else "v:" + img)
+        # (a 16-byte `v:` is a double _Complex: the model stores it in its 8-byte slot exactly as the generated code does)
         lines.append("slots 4096 " + " ".join(toks))
         plans.append((case, "ok " + " ".join(obs["received_args"])))
 
@@ -658,7 +794,10 @@ def gen_enc_obj(rng, t):
 
 
 def part_b(ctx, n, model=True):
+    import time
+    t0 = time.time()
     f, types = load_wrapper(ctx)
+    common.log("C14: backend wrapper built in %.1fs" % (time.time() - t0))
     lines, plans = [], []
     for _ in range(n):
         t = ctx.rng.choice(ENC_TYPES)
@@ -699,19 +838,79 @@ def part_b(ctx, n, model=True):
 
 # --------------------------------------------------------------------------- entry points
 
+GEN_NAME = {"float _Complex": "_cffi_float_complex_t", "double _Complex": "_cffi_double_complex_t", "char *": "pointer"}
+
+
+def oob_args(ffi, args, emitted):
+    return [j for j, t in enumerate(args)
+            if t not in STRUCTS and t != "long double" and 8 * j + ffi.sizeof(t) > emitted]
+
+
+def check_area(ctx, ffi, lib, sig, lines, plans):
+    """The `char a[N]` the generator emitted for xp_<i>: large enough for every store (oracle), and the model's size."""
+    text = open(_CPATH[id(lib)]).read()
+    m = re.search(r"\bxp_%d\([^)]*\)\n\{\n  char a\[([^\]]+)\];" % sig["idx"], text)
+    if not m:
+        raise InfraError("cannot find the area declaration of xp_%d in the emitted C" % sig["idx"])
+    expr = m.group(1)
+    res, args = sig["res"], sig["args"]
+    mm = re.match(r"sizeof\((.*?)\) > (\d+) \? sizeof\((.*?)\) : (\d+)$", expr)
+    if mm:
+        emitted = max(ffi.sizeof(mm.group(1)), int(mm.group(2)))
+    elif expr.isdigit():
+        emitted = int(expr)
+    else:
+        raise InfraError("unexpected area size expression %r" % expr)
+    _EMITTED[id(lib), sig["idx"]] = emitted
+    oob = oob_args(ffi, args, emitted)
+    case = {"sig": sig, "kind": "area", "emitted": emitted, "complex_arg_oob": bool(oob) and all(args[j] == "double _Complex" for j in oob)}
+    ctx.case(repr(("area", res, args)), sample=None)
+    ctx.count("area:%d" % emitted)
+    written = 0 if res == "void" else max(ffi.sizeof(res), 8)
+    if written > emitted:
+        ctx.fail(case, "the backend writes up to %d result bytes into `char a[%d]` of the generated function" % (written, emitted))
+    if 8 * len(args) > emitted:
+        ctx.fail(case, "%d argument slots do not fit `char a[%d]`" % (len(args), emitted))
+    if oob:
+        ctx.fail(case, "argument %d (%s, %d bytes) is stored at offset %d past the end of `char a[%d]`"
+                 % (oob[0], args[oob[0]], ffi.sizeof(args[oob[0]]), 8 * oob[0], emitted))
+    if res == "void":
+        spec = "void"
+    elif res in STRUCTS:
+        spec = "agg %d" % ffi.sizeof(res)
+    else:
+        spec = "prim %s %d" % (GEN_NAME.get(res, res).replace(" ", "~"), ffi.sizeof(res))
+    lines.append("area %d %s" % (len(args), spec))
+    plans.append((case, "ok %d %d" % (emitted, written)))
+
+
 def part_a(ctx, nsigs, nscen, model=True):
+    import time
+    t0 = time.time()
     sigs = [gen_sig(ctx.rng, i) for i in range(nsigs)]
     ffi, lib = build_module(ctx, sigs)
+    common.log("C14: module with %d signatures built in %.1fs" % (nsigs, time.time() - t0))
     lines, plans = [], []
+    todo = []
     for sig in sigs:
+        check_area(ctx, ffi, lib, sig, lines, plans)
         for kind in ("callback", "extern"):
+            if kind == "callback" and has_complex(sig):
+                continue                       # libffi closures do not take complex types
             for _ in range(nscen):
-                check_case(ctx, ffi, lib, sig, kind, gen_scenario(ctx.rng, sig), lines, plans)
+                todo.append((sig, kind, gen_scenario(ctx.rng, sig)))
+    forked = [it for it in todo if risky(it[0], it[1])]
+    pre = dict(zip(map(id, forked), run_batch_forked(ctx, ffi, lib, forked)))
+    for it in todo:
+        check_case(ctx, ffi, lib, it[0], it[1], it[2], lines, plans, obs=pre.get(id(it)))
+    common.log("C14: part A cases done at %.1fs" % (time.time() - t0))
     if model and lines:
         if len(lines) != len(plans):
             raise InfraError("internal: %d lines, %d plans" % (len(lines), len(plans)))
         out = ctx.driver(lines)
         for line, (case, want), got in zip(lines, plans, out):
+            if want is None:
+                continue
             if want == "created":
                 if got.startswith("err "):
                     ctx.disagree(case, "created", got, "creation with error= (%s)" % line)
@@ -720,14 +919,25 @@ def part_a(ctx, nsigs, nscen, model=True):
                 ctx.disagree(case, want, got, line)
 
 
+def translators(ctx):
+    """Generated/ExternPySize.lean (size rule of the argument/result area, from recompiler.py) and
+    Generated/Platform.lean (sizeof of every primitive type, by gcc): result_area_large_enough is stated over both."""
+    return [externpy_size.translator(ctx), lambda: _prim_tr.translate_platform(common.REPO, ctx.scratch)]
+
+
+def _explore(ctx):
+    EXPLORE_COMPLEX_ARG[0] = any(f["class"] == "C14/extern-python-double-complex-argument" for f in ctx.open_findings)
+
+
 def correspond(ctx):
-    EXPLORE_FINDING[0] = any(f["class"] == "C14/onerror-unconvertible-result" for f in ctx.open_findings)
+    _explore(ctx)
     for _ in range(ctx.n(1, 6)):
         part_a(ctx, ctx.n(30, 40), ctx.n(8, 25))
     part_b(ctx, ctx.n(1500, 20000))
 
 
 def search(ctx):
+    _explore(ctx)
     for _ in range(ctx.n(2, 8)):
         part_a(ctx, 40, ctx.n(20, 40), model=False)
     part_b(ctx, ctx.n(6000, 60000), model=False)
@@ -735,13 +945,27 @@ def search(ctx):
 
 def check_witness(ctx, finding):
     import cffi
-    ffi = cffi.FFI()
+    if finding["class"] == "C14/extern-python-double-complex-argument":
+        if ctx.scratch not in sys.path:
+            sys.path.insert(0, ctx.scratch)
+        name = "_c14_witness_%d_%d" % (ctx.seed, os.getpid())
+        ffi = cffi.FFI()
+        ffi.cdef('extern "Python" double _Complex wf(int, double _Complex, int); double _Complex wcall(void);')
+        ffi.set_source(name, "static double _Complex wf(int, double _Complex, int);\n"
+                             "double _Complex wcall(void) { double _Complex z; __real__ z = 2.0; __imag__ z = 3.0; return wf(1, z, 4); }\n")
+        cpath = os.path.join(ctx.scratch, name + ".c")
+        _quiet(lambda: ffi.emit_c_code(cpath))
+        common.compile_ext(cpath, ctx.scratch, name)
+        m = importlib.import_module(name)
+        got = []
 
-    def body():
-        raise BodyError()
-    cb = ffi.callback("unsigned char(void)", body, error=5, onerror=lambda *a: 300)
-    with Unraisable():
-        return cb() != 5
+        @m.ffi.def_extern()
+        def wf(a, z, b):
+            got.append((a, z, b))
+            return z
+        m.lib.wcall()
+        return got != [(1, complex(2.0, 3.0), 4)]
+    return None
 
 
 def _num(v):
@@ -779,12 +1003,21 @@ def replay(ctx, obj):
               % (case["type"], case["obj"], case["encode"], case["init"], exc, buf.hex()))
         return 0
     sig = case["sig"]
+    _explore(ctx)
+    if case.get("kind") == "area":
+        ffi, lib = build_module(ctx, [sig])
+        check_area(ctx, ffi, lib, sig, [], [])
+        print(sig_decl(sig, "xp_%d" % sig["idx"]), "-> char a[%d]" % case["emitted"])
+        for f in ctx.failures:
+            print("FAIL:", f["detail"])
+        return 1 if ctx.failures else 0
     case["scenario"] = _fix_scenario(case["scenario"])
     ffi, lib = build_module(ctx, [sig])
+    check_area(ctx, ffi, lib, sig, [], [])
     lines, plans = [], []
     check_case(ctx, ffi, lib, sig, case["kind"], case["scenario"], lines, plans)
     print(sig_decl(sig, "f"), case["kind"], case["scenario"])
-    print(run_case(ctx, ffi, lib, sig, case["kind"], case["scenario"]))
+    print(run_case_forked(ctx, ffi, lib, sig, case["kind"], case["scenario"]))
     for f in ctx.failures:
         print("FAIL:", f["detail"])
     return 1 if ctx.failures else 0
